@@ -936,12 +936,16 @@ def run(ctx):
                 desc = "valid declaration `%s` -> %s; %d enumerated cases attributed" % (decl_s, dev, len(expl))
             for _ in range(len(expl)):
                 ctx.violation(sig, desc, files={"unit.c": single_unit(c), "driver.c": build_driver([c])}, replay=REPLAY)
+    # cases left when the shrink rounds are used up keep their own (unshrunk) feature sets as signature
     for k in sorted(pending):
-        f = pending[k][0]
-        c = make_case(f[1], f[2], f[3], f[4])
-        for _ in pending[k]:
-            ctx.violation("C05|unclassified|%s|%s" % (k[0], k[1]), "%d further failing cases not shrunk (time), e.g. static %s = %s" % (
-                len(pending[k]), M.decl(c.ty, "s"), c.text), files={"unit.c": single_unit(c), "driver.c": build_driver([c])}, replay=REPLAY)
+        for f in pending[k]:
+            sig = "C05|unshrunk:%s|%s|%s:%s" % ("+".join(sorted(type_features(f[1]) - {'nonint'})), "+".join(f[6]) or "plain", k[0], k[1])
+            if sig in ctx.violations or any(core.fnmatch.fnmatchcase(sig, pat) for pat in ctx.findings):
+                ctx.violation(sig, "", None, None)
+                continue
+            c = make_case(f[1], f[2], f[3], f[4])
+            ctx.violation(sig, "failing case not shrunk (round limit): static %s = %s -> %s" % (M.decl(c.ty, "s"), c.text, k[1]),
+                          files={"unit.c": single_unit(c), "driver.c": build_driver([c])}, replay=REPLAY)
 
     ctx.cover(evaluations=tot["judged"], cases_generated=tot["cases"], types=len(uni), leaves_compared=tot["leaves"],
               distinct_nontrivial=tot["nontrivial"], skipped_undefined=tot["undefined"], ref_rejected=tot["refrej"],
